@@ -561,9 +561,10 @@ about contents become theorems here, each resting on the C09 theorem named:
   rejected exactly on a live phrase — `changes_refine_linked` (C09's `btGet_btInsert`, `btGet_btErase`,
   `contains_graveErase/Insert`, `addOk_eq` = `C09.refines_step`);
 * `entries()` collected into a `TrieBuilder` is the live contents — `snapshot_is_entries_linked`
-  (C09's snapshot lemma `build_abs`; **no** exclusion of class UpdatePersisted: `entries()` then yields
-  the key twice, persisted value first, and `TrieBuilder::insert` replaces in place — the order of
-  `trie_iter.chain(btree_iter)` is what makes the written value the map's, `snapshot_order_matters`).
+  (C09's snapshot lemma `build_abs`, in every state: since fix 8e6d504 `entries()` yields a key that is
+  both persisted and pending once, with the pending value, so the written value is the map's whatever
+  the order of `trie_iter.chain(btree_iter)` is — `snapshot_order_irrelevant`; before the fix the key was
+  listed twice and the order was what made the written value right).
 
 Files.  In `DictLink` a complete file is the `List Leaf` written (`Trie.build es` is "insert all, write,
 open" in C09's model).  That this abstraction is faithful is no longer assumed: `C09.file_layer_is_C11`
@@ -585,28 +586,33 @@ theorem live_is_abs_linked {s : TrieBuf.State} {b : Buf} (h : BufRel s b) : Rep 
 /-- every step of the protocol over C09's concrete operations (`TrieBuf.apply` for the three change
     calls, `Trie.build (TrieBuf.entries st)` for the snapshot) is the corresponding step of C10's
     abstract model with both repairs, and the abstraction relation is kept -/
-theorem changes_refine_linked {cw cw' : CWorld} {w : World} {a : CAct} (hs : Sim cw w) (ha : CActOk a)
+theorem changes_refine_linked {cw cw' : CWorld} {w : World} {a : CAct} (hs : Sim cw w)
     (h : cstep cw a = some cw') : ∃ w', step cfgR w (encAct a) = some w' ∧ Sim cw' w' :=
-  sim_step hs ha h
+  sim_step hs h
 
 /-- the file the snapshot thread writes from C09's concrete `entries()` denotes exactly the live
-    contents — in every state, class UpdatePersisted included -/
+    contents — in every state -/
 theorem snapshot_is_entries_linked {s : TrieBuf.State} {b : Buf} (hl : LInv s) (h : BufRel s b) :
     Trie.SnapOk (Trie.build (TrieBuf.entries s)) ∧
       Rep (TrieBuf.baseGet (Trie.build (TrieBuf.entries s))) b.live :=
   build_rep hl h
 
-/-- … and the order of `entries_iter` (`trie_iter.chain(btree_iter)`) is what makes that true: with
-    the two halves swapped, the state of C09's F10 witness (add 100, snapshot adopted, update to 50)
-    would be written with the stale persisted value 100 although the map holds 50 -/
-theorem snapshot_order_matters :
+/-- … and since fix 8e6d504 (F10) that no longer hangs on the order of `entries_iter`
+    (`trie_iter.chain(btree_iter)`): `entries()` skips a persisted entry that has a pending entry of the same
+    key, so on the state of C09's F10 witness (add 100, snapshot adopted, update to 50) both orders write
+    the map's value 50.  Without that filter (the code before the fix) the swapped order writes the stale
+    persisted value 100 — the seeded mutant `C08-entries-order-stale-freq`. -/
+theorem snapshot_order_irrelevant :
     let s := TrieBuf.run TrieBuf.initFile
       [.add [10268] [28204] 100 (some 2), .flush, .reopen, .update [10268] [28204] 50 7]
-    let swapped := (TrieBuf.btEntries s.btree ++ Trie.entries s.snap).filter
-      (fun e => !(s.grave.contains (e.1, e.2.text)))
+    let live := fun e : Entry => !(s.grave.contains (e.1, e.2.text))
+    let swapped := (TrieBuf.btEntries s.btree ++
+      (Trie.entries s.snap).filter (fun e => !(TrieBuf.btHas s.btree (e.1, e.2.text)))).filter live
+    let swappedUnfiltered := (TrieBuf.btEntries s.btree ++ Trie.entries s.snap).filter live
     TrieBuf.abs s ([10268], [28204]) = some (50, 7) ∧
     TrieBuf.baseGet (Trie.build (TrieBuf.entries s)) ([10268], [28204]) = some (50, 7) ∧
-    TrieBuf.baseGet (Trie.build swapped) ([10268], [28204]) = some (100, 2) := by
+    TrieBuf.baseGet (Trie.build swapped) ([10268], [28204]) = some (50, 7) ∧
+    TrieBuf.baseGet (Trie.build swappedUnfiltered) ([10268], [28204]) = some (100, 2) := by
   decide
 
 /-- **END TO END, in C09's terms.**  A file-backed user dictionary is opened on a well-formed trie
@@ -616,9 +622,9 @@ theorem snapshot_order_matters :
     at the path is a well-formed trie file `t` which holds exactly the map `MapSpec` computes from
     the calls made (`opsOf acts`: rejected `add`s change nothing), and a `TrieBuf` opened on it
     answers every exact lookup, the enumeration and every prefix lookup as that map — no exclusion:
-    the reopened dictionary is outside both C09 finding classes. -/
+    the reopened dictionary is outside C09's finding class. -/
 theorem durable_lookup_linked (t0 : List Leaf) (h0 : Trie.SnapOk t0) (tmp : Option CFile) (htmp : TmpOk tmp)
-    (acts : List CAct) (hok : ∀ a ∈ acts, CActOk a) (cw : CWorld)
+    (acts : List CAct) (cw : CWorld)
     (hrun : crun (cinit t0 tmp) acts = some cw) (hcl : cw.phase = .closed) :
     ∃ t, cw.fs .path = some (.complete t) ∧ Trie.SnapOk t ∧
       (∀ pk, TrieBuf.baseGet t pk = MapSpec.Map.run (TrieBuf.baseGet t0) (opsOf acts) pk) ∧
@@ -629,7 +635,7 @@ theorem durable_lookup_linked (t0 : List Leaf) (h0 : Trie.SnapOk t0) (tmp : Opti
       (∀ q, Trie.fuzzyMatch q q = true →
         MapSpec.IsFuzzyLookup Trie.fuzzyMatch (MapSpec.Map.run (TrieBuf.baseGet t0) (opsOf acts)) q
           (TrieBuf.lookupAll (freshSt t) q .fuzzyPartialPrefix)) := by
-  obtain ⟨w, hr, hs⟩ := sim_run (sim_init h0 htmp) hok hrun
+  obtain ⟨w, hr, hs⟩ := sim_run (sim_init h0 htmp) hrun
   have hd := durable_spec cfgR rfl rfl _ _ _ w hr (hs.phase ▸ hcl)
   have hp := hs.fs .path
   rw [hd] at hp
@@ -652,13 +658,12 @@ theorem durable_lookup_linked (t0 : List Leaf) (h0 : Trie.SnapOk t0) (tmp : Opti
       refine ⟨t, rfl, ht.1, heq, habs, ?_, ?_, ?_⟩
       · intro k
         rw [← habs]
-        exact TrieBuf.lookup_agrees hi k (fun _ => TrieBuf.settled_not_shadowed hset _)
+        exact TrieBuf.lookup_agrees hi k
       · rw [← habs]
-        exact TrieBuf.entries_agrees hi (fun key => TrieBuf.settled_not_shadowed hset key)
+        exact TrieBuf.entries_agrees hi
       · intro q hq
         rw [← habs]
         exact TrieBuf.fuzzy_agrees hi q hq (TrieBuf.settled_not_fuzzyClass hset q)
-          (fun _ => TrieBuf.settled_not_shadowed hset _)
 
 /-- non-vacuity of `durable_lookup_linked`: learn 測 under ㄘㄜˋ, update it while the first snapshot
     is being written, drop the dictionary: the run exists, ends closed, and the file holds the
@@ -668,11 +673,6 @@ example : ∃ cw, crun (cinit [] none)
      .w, .w, .w, .w, .w, .w, .w, .d, .d, .d, .w, .w, .w, .w, .w, .w, .w, .w, .w, .d] = some cw ∧
     cw.phase = .closed ∧ creadPath cw.fs = some [([10268], [{ text := [28204], freq := 9, lastUsed := some 7 }])] :=
   ⟨_, rfl, rfl, rfl⟩
-
-example : ∀ a ∈ ([.add [10268] [28204] 5 none, .update [10268] [28204] 9 7] : List CAct), CActOk a := by
-  intro a ha
-  simp only [List.mem_cons, List.not_mem_nil, or_false] at ha
-  rcases ha with rfl | rfl <;> (show TrieBuf.inRange _ = true) <;> decide
 
 /-! ### the same with the file as bytes (C11 under C09 under C10) -/
 
@@ -686,17 +686,18 @@ theorem isEntries_perm {m : MapSpec.Map} {l1 l2 : List Entry} (hp : l1.Perm l2) 
 theorem lookupAll_freshSt (t : List Leaf) (k : List Nat) (st : Strategy) :
     TrieBuf.lookupAll (freshSt t) k st = dedup (Trie.lookupAll t k st) := by
   have h : ∀ l : List Phrase, l.filter (fun _ => true) = l := fun l => List.filter_eq_self.mpr (fun _ _ => rfl)
-  simp [TrieBuf.lookupAll, TrieBuf.entriesIterFor, freshSt, TrieBuf.initFile, TrieBuf.initMem, TrieBuf.btreeRange, h]
+  simp [TrieBuf.lookupAll, TrieBuf.entriesIterFor, freshSt, TrieBuf.initFile, TrieBuf.initMem, TrieBuf.btreeRange,
+    TrieBuf.btHas, h]
 
 theorem entries_freshSt (t : List Leaf) : TrieBuf.entries (freshSt t) = Trie.entries t := by
-  simp [TrieBuf.entries, freshSt, TrieBuf.initFile, TrieBuf.initMem, TrieBuf.btEntries]
+  simp [TrieBuf.entries, freshSt, TrieBuf.initFile, TrieBuf.initMem, TrieBuf.btEntries, TrieBuf.btHas]
 
 /-- the size limits of the trie format (C11's `Builder.Fits`) for a file with metadata `info` -/
 def FitsInfo (info : TrieCodec.Info) (es : List Entry) : Prop := (TrieCodec.Builder.ofEntries info es).Fits
 
 /-- **END TO END, with the file as bytes.**  The user dictionary is opened on the file written from
     the valid entries `es0`; the history makes `add_phrase` / `update_phrase` calls with arguments of the
-    Rust types (`CActValid`) and phrases not beginning with U+10FFFF (`CActOk`), `remove_phrase`, `flush`,
+    Rust types (`CActValid`), `remove_phrase`, `flush`,
     `reopen`, under **every** schedule of the snapshot writer, over any number of close / open cycles;
     every snapshot the history can take is within the limits of the trie format (`SnapshotsOk`: the
     hypothesis of `C11.writes_within_limits`, under which `TrieBuilder::write` does not fail); at the end
@@ -711,7 +712,7 @@ def FitsInfo (info : TrieCodec.Info) (es : List Entry) : Prop := (TrieCodec.Buil
 theorem durable_lookup_bytes_linked (info : TrieCodec.Info) (hinfo : TrieCodec.ValidInfo info)
     (es0 : List Entry) (hv0 : ∀ e ∈ es0, TrieCodec.ValidEntry e) (hfit0 : FitsInfo info es0)
     (tmp : Option CFile) (htmp : TmpWritten (FitsInfo info) tmp)
-    (acts : List CAct) (hok : ∀ a ∈ acts, CActOk a) (hval : ∀ a ∈ acts, CActValid a)
+    (acts : List CAct) (hval : ∀ a ∈ acts, CActValid a)
     (hfit : SnapshotsOk (FitsInfo info) (cinit (Trie.build es0) tmp) acts)
     (cw : CWorld) (hrun : crun (cinit (Trie.build es0) tmp) acts = some cw) (hcl : cw.phase = .closed) :
     ∃ es bytes tr, cw.fs .path = some (.complete (Trie.build es)) ∧ (∀ e ∈ es, TrieCodec.ValidEntry e) ∧
@@ -730,7 +731,7 @@ theorem durable_lookup_bytes_linked (info : TrieCodec.Info) (hinfo : TrieCodec.V
           (dedup (TrieCodec.lookupAll tr q .fuzzyPartialPrefix))) := by
   have h0 : Written (FitsInfo info) (Trie.build es0) := ⟨es0, hv0, hfit0, rfl⟩
   obtain ⟨t, hpath, hsnap, heq, habs, _, hent, hfz⟩ :=
-    durable_lookup_linked (Trie.build es0) h0.snapOk tmp htmp.ok acts hok cw hrun hcl
+    durable_lookup_linked (Trie.build es0) h0.snapOk tmp htmp.ok acts cw hrun hcl
   have htr := tracked_run (tracked_init h0 htmp) hval hfit hrun
   obtain ⟨es, hv, hf, rfl⟩ := htr.files .path t hpath
   have hvi : C11.ValidInput info es := ⟨hinfo, hv⟩
